@@ -357,6 +357,22 @@ var c11Injectors = []c11Injector{
 		}
 		return true
 	}},
+	// compiled with the skip-unknown option: an import of a module that is not supplied, and an augment into it.
+	// Every compilation of the set in this process must come out the same (the stand-in the compiler makes up
+	// for the missing module is per compilation).
+	{"skip-unknown/augment-into-a-module-that-is-not-supplied", false, func(r *core.Rng, ms *yang.ModSet) bool {
+		m := modA(ms)
+		addBody(m, yang.S("import", "gone-mod", yang.S("prefix", "gone")),
+			yang.S("augment", "/gone:one/gone:two", yang.S("leaf", "added-"+pfx(m), yang.S("type", "string"))))
+		yang.SortSections(m)
+		if len(ms.Mods) > 1 && ms.Mods[1].Kw == "module" {
+			b := ms.Mods[1]
+			addBody(b, yang.S("import", "gone-mod", yang.S("prefix", "gone")),
+				yang.S("augment", "/gone:three", yang.S("leaf", "added-"+pfx(b), yang.S("type", "uint8"))))
+			yang.SortSections(b)
+		}
+		return true
+	}},
 	{"unknown-prefix-in-type", false, func(r *core.Rng, ms *yang.ModSet) bool {
 		addBody(modA(ms), yang.S("leaf", "dl", yang.S("type", "nopfx:t")))
 		return true
@@ -686,6 +702,8 @@ func (p *c11) Run(tier string, seed int64, idx int) core.CaseResult {
 	case "dangling":
 		res.Ev("dangling_sets", 1)
 	}
+	compileSkipUnknown = strings.HasPrefix(c.injector, "skip-unknown/")
+	defer func() { compileSkipUnknown = false }()
 	for rep := 0; rep < R; rep++ {
 		order := make([]string, len(names))
 		for i, pi := range r.Perm(len(names)) {
